@@ -24,7 +24,7 @@ register(
         "GtModel.Render.eq_valPerm",
         "GtModel.Render.seq_lemma",
     ],
-    streams=["render"],
+    streams=["render", "render_O"],
     assumptions=[
         "objects of the compared documents have distinct keys (Doc.distinctKeys / Tree.KeysDistinct; what json parsers "
         "deliver)",
